@@ -126,7 +126,7 @@ func init() {
 
 	mk("C13", "Interpolation and $env substitute exactly the referenced values",
 		"path-effect summaries of process2String, process2StringInterp (the text handed to the replacement pass), the interpolation callback (captured error cell), getWithVar, GetVar, envVars; census of the interpolation pattern literal",
-		"C13 decides the interpolation trigger and pattern, that the text scanned for references is the string minus exactly its $" opener and closing quote, that a failed lookup or nested evaluation stores its own error in the captured error which is returned on every path (never an empty substitution), the document-then-variable fallback, whole-string $env:/$repeat substitution, and that environment values are boxed as strings.",
+		"C13 decides the interpolation trigger and pattern, that the text scanned for references is the string minus exactly its dollar-quote opener and its closing quote, that a failed lookup or nested evaluation stores its own error in the captured error which is returned on every path (never an empty substitution), the document-then-variable fallback, whole-string $env:/$repeat substitution, and that environment values are boxed as strings.",
 		"DESIGN.md §5 C13",
 		[]string{"%v formatting of non-string values", "literal } and : inside templates"},
 		nil,
